@@ -313,7 +313,7 @@ def who_may_write(S, rep):
     rep.note("integral_mentions", len(hits))
 
 
-def wrappers_forward_options(S, rep):
+def wrappers_forward_options(S, rep, rule="C10.w"):
     """wrapper agreement: every subclass of the interaction class must hand its constructor arguments to the base parameter of
     the same name (reset mode, thread count, coefficients, dx ... are all plain positional values of compatible types, so a
     transposition still runs), and must not swallow an option the base also has"""
@@ -352,7 +352,7 @@ def wrappers_forward_options(S, rep):
                             calls.append((n, list(n.args[1:])))
                 lab = "%s (%s)" % (cls.name, rel.split("/")[-1])
                 if len(calls) != 1:
-                    rep.ob("C10.w", lab + " calls the base constructor once", False, "%d base-constructor calls" % len(calls), key="C10.w|%s|ncalls" % cls.name)
+                    rep.ob(rule, lab + " calls the base constructor once", False, "%d base-constructor calls" % len(calls), key=rule + "|%s|ncalls" % cls.name)
                     continue
                 call, pos = calls[0]
                 found += 1
@@ -361,7 +361,7 @@ def wrappers_forward_options(S, rep):
                 bound = {}
                 for i, a in enumerate(pos):
                     if i >= len(bparams):
-                        rep.ob("C10.w", lab, False, "too many positional arguments for the base constructor", key="C10.w|%s|arity" % cls.name)
+                        rep.ob(rule, lab, False, "too many positional arguments for the base constructor", key=rule + "|%s|arity" % cls.name)
                         break
                     bound[bparams[i]] = a
                 for kw in call.keywords:
@@ -375,11 +375,11 @@ def wrappers_forward_options(S, rep):
                 ok = not wrong and not dropped
                 why = "; ".join(wrong + ["its option `%s` is not forwarded" % q for q in dropped]) if not ok else \
                     "%d arguments bound to the base parameters of the same name" % len(bound)
-                rep.ob("C10.w", lab + " forwards its arguments unchanged", ok, why, key="C10.w|%s|%s" % (cls.name, why[:120] if not ok else ""),
+                rep.ob(rule, lab + " forwards its arguments unchanged", ok, why, key=rule + "|%s|%s" % (cls.name, why[:120] if not ok else ""),
                        sample={"wrapper": cls.name, "bound": {k: ast.unparse(v)[:40] for k, v in bound.items()}})
                 missing = [q for q in bparams[:n_required] if q not in bound]
                 if missing:
-                    rep.ob("C10.w", lab + " supplies the required arguments", False, "missing %s" % missing, key="C10.w|%s|missing" % cls.name)
+                    rep.ob(rule, lab + " supplies the required arguments", False, "missing %s" % missing, key=rule + "|%s|missing" % cls.name)
     rep.note("interaction_wrappers", found)
     if found < 2:
         raise Unsupported("expected the rigid-body and Cosserat-rod interaction wrappers, found %d subclasses" % found)
